@@ -538,3 +538,74 @@ Proof.
     destruct (Z.ltb_spec (bh - (if funder then fee else 0)) 0) as [|Hh]; [reflexivity|].
     destruct funder; lia.
 Qed.
+
+(** ** Packaged statement *)
+Definition commit_conserves_stmt : Prop :=
+  forall ct local funder v s htlcs fr dust,
+  commit_pre ct local funder v s htlcs fr dust ->
+  exists ca,
+    build_commitment ct local funder v s htlcs fr dust = Some ca /\
+    build_commitment_safe ct local v htlcs fr dust = true /\
+    (* the trim: a partition of the input by the dust predicate *)
+    Permutation (ca_nondust ca ++ ca_dust ca) htlcs /\
+    Forall (fun h => h_is_dust ct fr dust h = true) (ca_dust ca) /\
+    Forall (fun h => h_is_dust ct fr dust h = false) (ca_nondust ca) /\
+    ca_commit_tx_fee_sat ca = commit_tx_fee_sat fr (Z.of_nat (List.length (ca_nondust ca))) ct /\
+    (* the itemised fee: every item is non-negative; the funder pays [min fee balance] (saturating branch) *)
+    (let '(vs, vr) := pre_dust_values funder ca in
+     0 <= Z.min (ca_commit_tx_fee_sat ca) (funder_before_fee_sat funder ca) /\
+     0 <= total_anchors_sat ct - sum_z (anchors_in_tx ct (ca_to_broadcaster_sat ca) (ca_to_countersignatory_sat ca) (ca_nondust ca)) /\
+     0 <= vs + vr - ca_to_broadcaster_sat ca - ca_to_countersignatory_sat ca /\
+     0 <= htlcs_msat (ca_dust ca) /\ 0 <= htlcs_rem (ca_nondust ca) /\
+     0 <= ca_local_balance_before_fee_msat ca mod 1000 < 1000 /\
+     0 <= ca_remote_balance_before_fee_msat ca mod 1000 < 1000 /\
+     (if funder then vs else vr) =
+       funder_before_fee_sat funder ca - Z.min (ca_commit_tx_fee_sat ca) (funder_before_fee_sat funder ca)) /\
+    (* conservation, whenever the funder can pay for the anchors *)
+    (anchors_affordable ct local funder v s htlcs ->
+     exists outs fee_paid,
+       commit_tx_outputs ct v (ca_to_broadcaster_sat ca) (ca_to_countersignatory_sat ca) (ca_nondust ca) = Some outs /\
+       sum_z outs + fee_paid = v /\ 0 <= fee_paid /\
+       fee_breakdown_msat ct funder ca mod 1000 = 0 /\
+       (if ctf_supports_anchor_zero_fee_commitments ct
+        then
+          let t := fee_breakdown_msat ct funder ca / 1000 in
+          fee_paid = t - Z.min P2A_MAX_VALUE t /\
+          sum_z outs = ca_to_broadcaster_sat ca + ca_to_countersignatory_sat ca + htlcs_sat (ca_nondust ca)
+                       + Z.min P2A_MAX_VALUE t
+        else
+          1000 * fee_paid = fee_breakdown_msat ct funder ca /\
+          sum_z outs = ca_to_broadcaster_sat ca + ca_to_countersignatory_sat ca + htlcs_sat (ca_nondust ca)
+                       + sum_z (anchors_in_tx ct (ca_to_broadcaster_sat ca) (ca_to_countersignatory_sat ca) (ca_nondust ca)))).
+
+Lemma commit_conserves : commit_conserves_stmt.
+Proof.
+  intros ct local funder v s htlcs fr dust Hpre.
+  destruct (build_commitment_some _ _ _ _ _ _ _ _ Hpre) as (ca & Hb & Hsafe & Hnd & Hdu & Hfee).
+  exists ca. split; [exact Hb|]. split; [exact Hsafe|].
+  destruct (trim_exact _ _ _ _ _ _ _ _ _ Hpre Hb) as (Hperm & Hfd & Hfn & _).
+  split; [exact Hperm|]. split; [exact Hfd|]. split; [exact Hfn|]. split; [exact Hfee|].
+  split; [exact (fee_breakdown_items_nonneg _ _ _ _ _ _ _ _ _ Hpre Hb)|].
+  intros Haff. exact (commit_tx_outputs_conserve _ _ _ _ _ _ _ _ _ Hpre Hb Haff).
+Qed.
+
+(** Non-vacuity: a concrete instance (anchors channel, counterparty's commitment, four HTLCs two of
+    which are dust at one party's threshold) satisfies the preconditions and [anchors_affordable]. *)
+Definition ex_htlcs : list htlc_out :=
+  [mkHtlcOut true 5000000 1; mkHtlcOut false 353999 2; mkHtlcOut false 354000 3; mkHtlcOut true 100 4].
+
+Lemma ex_commit_pre : commit_pre CT_Anchors false true 1000000 600000000 ex_htlcs 2500 354
+  /\ anchors_affordable CT_Anchors false true 1000000 600000000 ex_htlcs.
+Proof.
+  split.
+  - constructor; try (vm_compute; intuition congruence).
+    unfold amounts_nonneg, ex_htlcs. repeat constructor; cbn; lia.
+  - vm_compute. intuition congruence.
+Qed.
+
+Lemma ex_commit_value :
+  option_map (fun ca => (ca_to_broadcaster_sat ca, ca_to_countersignatory_sat ca,
+                         map ho_tag (ca_nondust ca), map ho_tag (ca_dust ca), ca_commit_tx_fee_sat ca))
+    (build_commitment CT_Anchors false true 1000000 600000000 ex_htlcs 2500 354)
+  = Some (394999, 594962, [1; 3], [2; 4], 3670).
+Proof. vm_compute. reflexivity. Qed.
